@@ -30,8 +30,8 @@ OPS = {
 def run(ctx):
     ctx.rule("C15.guard", "A3 lockset rule on the value of all five register-like classes (reads under S or X, "
              "writes under X of the object's own mutex)", floor=60)
-    for cls in OPS:
-        ctx.step(check_guarded_fields, ctx, "C15.guard", cls)
+    for cls, names in OPS.items():
+        ctx.step(check_guarded_fields, ctx, "C15.guard", cls, only_functions=names + ("lock_shared",))
     ctx.step(onecs, ctx)
     ctx.step(flow_rules, ctx)
     ctx.step(common.witnesses, ctx, "C15.witness", ["C15"])
